@@ -7,7 +7,8 @@ Local Open Scope N_scope.
    carrying all required fields never produce a required-field error.  (Corollary of C06_legal_encodings.) *)
 Theorem C17_unmarshal_error_iff : forall sc ty p fast dest,
   schema_ok sc = true -> legal_msg sc (S (length p)) ty p = true -> no_dup_msgs sc (S (length p)) ty p = true ->
-  exists v, ref_decode sc (S (length p)) ty p = Some v /    (gen_unmarshal_into sc fast ty dest p = UErr <-> requireds_set sc (S (vdepth v)) ty v = false).
+  exists v, ref_decode sc (S (length p)) ty p = Some v /\
+    (gen_unmarshal_into sc fast ty dest p = UErr <-> requireds_set sc (S (vdepth v)) ty v = false).
 Proof. exact unmarshal_error_iff. Qed.
 
 Definition rq_sc : schema := [
